@@ -144,7 +144,7 @@ def run(prop, tier):
         trace = os.path.join(sd, "trace.ndjson")
         thorough = tier == "thorough"
         cmd = [binp, "-cases", cases, "-out", trace, "-seed", str(vp.seed()), "-work", wd,
-               "-nps-btc", "8" if thorough else "4", "-nps-lbtc", "3" if thorough else "1",
+               "-nps-btc", "16" if thorough else "4", "-nps-lbtc", "6" if thorough else "1",
                "-nps-o", "6" if thorough else "2"]
         th = time.time()
         p = vp.run(cmd, timeout=3000, check=False)
